@@ -363,7 +363,7 @@ def body_schedule(ctx, case):
 
 
 UNITS = [
-    Unit("page_decoder", "machine", machine=make_decoder_machine, quick=320, thorough=4000, steps=10, shards_quick=8),
-    Unit("page_parser", "machine", machine=make_parser_machine, quick=64, thorough=800, steps=7, shards_quick=8),
-    Unit("schedule", "given", body=body_schedule, strategy=strat_schedule, quick=8, thorough=64, shards_quick=4, shards_thorough=16),
+    Unit("page_decoder", "machine", machine=make_decoder_machine, quick=320, thorough=4000, steps=10, shards_quick=8, shrink_quick=False),
+    Unit("page_parser", "machine", machine=make_parser_machine, quick=64, thorough=800, steps=7, shards_quick=8, shrink_quick=False),
+    Unit("schedule", "given", body=body_schedule, strategy=strat_schedule, quick=8, thorough=64, shards_quick=4, shards_thorough=16, shrink_quick=False),
 ]
